@@ -1171,7 +1171,8 @@ def _oauth_signature(
 
     See http://oauth.net/core/1.0/#signing_process
     """
-    parts = urllib.parse.urlparse(url)
+    # urlsplit, not urlparse: ";" is part of the path (RFC 3986).
+    parts = urllib.parse.urlsplit(url)
     scheme, netloc, path = parts[:3]
     normalized_url = scheme.lower() + "://" + netloc.lower() + path
 
@@ -1200,7 +1201,8 @@ def _oauth10a_signature(
 
     See http://oauth.net/core/1.0a/#signing_process
     """
-    parts = urllib.parse.urlparse(url)
+    # urlsplit, not urlparse: ";" is part of the path (RFC 3986).
+    parts = urllib.parse.urlsplit(url)
     scheme, netloc, path = parts[:3]
     normalized_url = scheme.lower() + "://" + netloc.lower() + path
 
